@@ -117,31 +117,45 @@ class Run:
         return rep
 
     def govc_cache_key(self, govc, spec, cmd):
+        """hash of everything a govc run reads: the govc binary, its arguments, the contract files and every Go file of the
+        loaded packages and of the packages of the same module they import (go list -deps). Paths are made relative to the
+        repository / work directory, so that a scratch copy of the repository with the same contents shares the results."""
         h = hashlib.sha256()
         h.update(open(govc, "rb").read())
         d = self.subst(spec["dir"])
-        args = [a.replace(self.work, "{work}") for a in cmd if not a.endswith(".json")]
+
+        def norm(a):
+            return a.replace(self.work, "{work}").replace(self.repo, "{repo}")
+        args = [norm(a) for a in cmd if not a.endswith(".json")]
         h.update(" ".join(args).encode())
         for c in spec["contracts"]:
             h.update(open(self.subst(c), "rb").read())
         files = []
-        for pk in spec["pkgs"]:
-            root = os.path.join(d, pk)
-            for dp, dn, fn in os.walk(d if d != self.repo else root):
+        dirs = None
+        try:
+            rc, o = sh(["go", "list", "-deps", "-tags", "verif", "-f", "{{.Dir}}"] + list(spec["pkgs"]), cwd=d, timeout=300)
+            if rc == 0:
+                dirs = [l.strip() for l in o.split("\n") if l.strip().startswith(d.rstrip("/") + "/") or l.strip() == d.rstrip("/")]
+        except Exception:
+            dirs = None
+        if dirs:
+            for dp in dirs:
+                for f in os.listdir(dp):
+                    if f.endswith(".go") and not f.endswith("_test.go"):
+                        files.append(os.path.join(dp, f))
+            files.append(os.path.join(d, "go.mod"))
+        else:
+            # fallback: everything below the module directory
+            for dp, dn, fn in os.walk(d):
                 if "/.git" in dp or "/example" in dp:
                     continue
                 for f in fn:
                     if f.endswith(".go") or f == "go.mod":
                         files.append(os.path.join(dp, f))
-        if d == self.repo:
-            # generator packages import each other: hash the whole internal/ tree and main.go
-            for dp, dn, fn in os.walk(os.path.join(d, "internal")):
-                for f in fn:
-                    if f.endswith(".go"):
-                        files.append(os.path.join(dp, f))
-            files.append(os.path.join(d, "main.go"))
         for f in sorted(set(files)):
-            h.update(f.replace(self.work, "{work}").replace(self.repo, "{repo}").encode())
+            if not os.path.exists(f):
+                continue
+            h.update(norm(f).encode())
             h.update(open(f, "rb").read())
         return h.hexdigest()[:24]
 
